@@ -6,6 +6,7 @@ import datetime
 import json
 import os
 import random
+import re
 
 import srvcase
 from common import Interner, gN, gZ, gbool, glist, gobj, gopt, sortkey
@@ -64,6 +65,9 @@ def gen_case(rng, opts=None):
             am["l_" + a] = tmpl(a)
             if r > 0.85:
                 am["l2_" + a] = tmpl(a)
+        if rng.random() < opts.get("p_const", 0.0):
+            # a local attribute set by a Jinja template without any remote variable (constant)
+            am["lc_k"] = "{{ 'kc' }}"
         cdm["L" + t["name"]] = {"hermesType": t["name"], "attrsmapping": am}
     retention = opts.get("retention", rng.choice([0, 0, 1, 2]))
     if shape == "assoc" or any(len(t["pkey"]) > 1 for t in cfg["types"]):
@@ -97,6 +101,12 @@ def gen_sessions(rng, nevents, opts=None):
         its.append({"limit": limit, "now": now, "restart": rng.random() < opts.get("p_restart", 0.0)})
         if len(its) > 40:
             break
+    if opts.get("p_stop_mid"):
+        # a graceful stop requested while the k-th new event of the batch is processed (the next
+        # iteration is a new process life)
+        for j in range(len(its) - 1):
+            if its[j + 1]["restart"] and rng.random() < opts["p_stop_mid"]:
+                its[j]["stop_after"] = rng.randint(1, 3)
     if opts.get("retention_switch"):
         # retention switched between 0 and R at restarts
         cur = opts["retention_switch"][0]
@@ -247,6 +257,20 @@ def run_case(case, wd, sessions=None):
         world["limit"] = it["limit"]
         world["faults_on"] = it.get("faults", True)
         mark["n0"] = len(world["calls"])
+        world["deliverhook"] = None
+        if it.get("stop_after"):
+            # graceful stop requested while the k-th new event of the batch is being processed
+            left = {"n": it["stop_after"]}
+
+            def hook(off, it=it):
+                if world.get("_mode") != "process":
+                    return
+                left["n"] -= 1
+                if left["n"] == 0:
+                    live["cl"]._GenericClient__isStopped = True
+                    live["cl"]._stopped_by_request = True
+                    it["limit"] = off          # equivalent iteration: everything up to this event, then stop
+            world["deliverhook"] = hook
 
     def make_after(client):
         def after(i, it):
@@ -263,10 +287,12 @@ def run_case(case, wd, sessions=None):
         return clidrv.client_config(wd + "/cli", case["cdm"], trashbin_retention=it.get("retention", case["retention"]),
                                     foreignkeys_policy=case["fkpolicy"], autoremediation=case["remediation"],
                                     cache=case["cache"])
+    live = {"cl": cl}
     for si, seg in enumerate(segments):
         if si > 0:
             # the retention in force may change across a restart (it["retention"])
             cl = clidrv.start_client(wd + "/cli", conf_for(seg[0]), world)
+        live["cl"] = cl
         seg2 = [dict(it, now=EPOCH + datetime.timedelta(seconds=it["now"])) for it in seg]
         clidrv.run_segment(cl, seg2, before, make_after(cl))
     init = obs[0][1]
@@ -286,6 +312,12 @@ def run_case(case, wd, sessions=None):
 # ---------------------------------------------------------------------------------------
 # Gallina rendering
 # ---------------------------------------------------------------------------------------
+def const_of(ra):
+    """value of a mapping written as a Jinja template of a string literal only, else None"""
+    m = re.fullmatch(r"\{\{ '([a-z]+)' \}\}", ra)
+    return m.group(1) if m else None
+
+
 class CCtx:
     def __init__(self, case, res):
         cfg = case["cfg"]
@@ -296,9 +328,17 @@ class CCtx:
         names = set([TS])
         for t in cfg["types"]:
             names.update(t["attrs"])
+        # a constant template is rendered as the mapping of a virtual remote attribute that every
+        # 'added' event (and so every remote object) of the type carries with the constant value
+        self.consts = {}
         for lname, d in case["cdm"].items():
             self.ltypes[lname] = self.types[d["hermesType"]]
             names.update(d["attrsmapping"].keys())
+            for la, ra in d["attrsmapping"].items():
+                cv = const_of(ra)
+                if cv is not None:
+                    self.consts.setdefault(d["hermesType"], {})["__c_" + la] = cv
+                    names.add("__c_" + la)
             for a in self.tdesc[d["hermesType"]]["pkey"]:
                 names.add("_pkey_" + a)
         self.attrs = Interner(names)
@@ -343,6 +383,8 @@ class CCtx:
                 f" {self.gobj(attrs['removed'])}))")
 
     def gcev(self, evtype, tname, k, attrs, ts=0, step=0, partial=False):
+        if evtype == "added" and tname in self.consts:
+            attrs = dict(attrs, **self.consts[tname])
         return (f"(CEv {gN(self.tid(tname))} {gZ(self.key(k))} {self.gkind(evtype, attrs)} {gZ(ts)}"
                 f" {gZ(step)} {gbool(partial)})")
 
@@ -362,6 +404,8 @@ class CCtx:
                     # live caches: the internal timestamp may linger on an object shared by
                     # reference between the live and the complete cache (not modelled)
                     o = {a: v for a, v in o.items() if a != TS}
+                if not local and base in self.consts:
+                    o = dict(o, **self.consts[base])
                 items.append(((tid, self.key(k)), self.gobj(o)))
         items.sort(key=lambda x: x[0])
         return "(mk_world [" + ";".join(f"({gN(t)},{gZ(k)},{o})" for (t, k), o in items) + "])"
@@ -373,7 +417,8 @@ class CCtx:
             if l is None:
                 continue
             plain = lambda ra: ra[3:-3] if ra.startswith("{{ ") and ra.endswith(" }}") else ra
-            am = [(self.attrs[la], self.attrs[plain(ra)]) for la, ra in case["cdm"][l]["attrsmapping"].items()]
+            am = [(self.attrs[la], self.attrs["__c_" + la if const_of(ra) is not None else plain(ra)])
+                  for la, ra in case["cdm"][l]["attrsmapping"].items()]
             am += [(self.attrs["_pkey_" + a], self.attrs[a]) for a in t["pkey"]]
             fks = [(self.attrs["_pkey_" + a], self.types[p]) for a, p in t["fks"].items()]
             cts.append("(CType {} {} {} {})".format(
